@@ -34,7 +34,7 @@ def plan(tier, seed):
     import vt.contactions as HC  # noqa
     for drv in ("h5", "ih5"):
         for first in range(len(HC.ACTIONS)):
-            parts.append(Part("vt.harness.cont", "seq", {"drv": drv, "k": k, "first": first, "init": first % 2}, 900 if tier == "quick" else 8000, 300,
+            parts.append(Part("vt.harness.cont", "seq", {"drv": drv, "k": (k if drv == "h5" else 2), "first": first, "init": first % 2}, 900 if tier == "quick" else 8000, 300,
                               "stored object returned equal; parent views valid; one per schema; queries exact at node/group/container level"))
     import vt.contactions as _CA
     for sel in _CA.mirror_sels():
